@@ -3,6 +3,7 @@ import Driver.C01
 import Driver.C07
 import Driver.C02
 import Driver.C11
+import Driver.C09
 import Driver.C13
 import Driver.C06
 import Driver.C14
@@ -15,6 +16,7 @@ def dispatch (prop : String) (j : Json) : Except String Json :=
   | "C07" => Driver.C07.handle j
   | "C02" => Driver.C02.handle j
   | "C11" => Driver.C11.handle j
+  | "C09" => Driver.C09.handle j
   | "C13" => Driver.C13.handle j
   | "C06" => Driver.C06.handle j
   | "C14" => Driver.C14.handle j
